@@ -151,6 +151,15 @@ func main() {
 		}
 		return
 	}
+	if *dumpfn == "DEADCLOSURES" {
+		w := loadWorld(*repo)
+		for _, fn := range w.RepoFuncs("schema", "internal", "flow", "callbacks", "components", "utils", "compose") {
+			for _, mc := range deadClosures(fn) {
+				fmt.Printf("%s | %s | %s\n", w.fname(fn), mc.Fn.Name(), w.pos(mc.Fn.Pos()))
+			}
+		}
+		return
+	}
 	if *dumpfn == "LIST" {
 		w := loadWorld(*repo)
 		for _, f := range w.RepoFuncs() {
